@@ -366,6 +366,14 @@ def classify_c12(rej, line, trace_lines):
         return "%s/%s/%s" % (ev, via, cls), {"err": s["err"]}
     if ev == "Store":
         return "Store/db/error", {}
+
+    def idtag(x):
+        return (key(x["id"]), x["tag"])
+    if "held" in s:
+        now = s.get("res") if ev == "Get" else s.get("entries", [])
+        if [idtag(x) for x in s["held"]] != [idtag(x) for x in now]:
+            # the slice(s) the call returned hold other bytes after later calls than right after the call
+            return "%s/%s/returned-bytes-changed-while-held" % (ev, via), {"at_return": now, "later": s["held"]}
     cur = stored_before(trace_lines, line["n"])
     if ev == "Gap":
         st = line["a"]["st"]
@@ -455,5 +463,12 @@ def classify_c16(rej, line):
         s = line.get("s", {})
         if s.get("err"):
             return "Get/db/error-after-reopen", {"err": s["err"]}
+
+        def idtag(x):
+            return (key(x["id"]), x["tag"])
+        if line.get("a", {}).get("pass") == 2:
+            return "Get/db/concurrent-lookup-returned-other-bytes", {"got": s.get("res")}
+        if "held" in s and [idtag(x) for x in s["held"]] != [idtag(x) for x in s.get("res", [])]:
+            return "Get/db/returned-bytes-changed-while-held", {"at_return": s.get("res"), "later": s["held"]}
         return "Get/db/inconsistent-after-reopen", {}
     return "%s/rejected" % ev, {}
